@@ -244,8 +244,8 @@ package workflow
 //@   modifies r.parent, r.Defaults.parent, r.Vars.parent, r.UserVars.parent
 //@   ensures r.parent == role
 //@   ensures r.Defaults != nil && r.Defaults != r.Vars && r.Defaults != r.UserVars ==> r.Defaults.parent == old(nodeDefaults(role))
-//@   ensures r.Vars != nil && r.Vars != r.UserVars ==> r.Vars.parent == old(nodeVars(role))
-//@   ensures r.UserVars != nil ==> r.UserVars.parent == old(nodeUserVars(role))
+//@   ensures r.Vars != nil && r.Vars != r.Defaults && r.Vars != r.UserVars ==> r.Vars.parent == old(nodeVars(role))
+//@   ensures r.UserVars != nil && r.UserVars != r.Defaults && r.UserVars != r.Vars ==> r.UserVars.parent == old(nodeUserVars(role))
 
 //@ func (t *taskRole) setParent(role Updatable)
 //@   property C14
@@ -253,8 +253,8 @@ package workflow
 //@   modifies t.parent, t.Defaults.parent, t.Vars.parent, t.UserVars.parent
 //@   ensures t.parent == role
 //@   ensures t.Defaults != nil && t.Defaults != t.Vars && t.Defaults != t.UserVars ==> t.Defaults.parent == old(nodeDefaults(role))
-//@   ensures t.Vars != nil && t.Vars != t.UserVars ==> t.Vars.parent == old(nodeVars(role))
-//@   ensures t.UserVars != nil ==> t.UserVars.parent == old(nodeUserVars(role))
+//@   ensures t.Vars != nil && t.Vars != t.Defaults && t.Vars != t.UserVars ==> t.Vars.parent == old(nodeVars(role))
+//@   ensures t.UserVars != nil && t.UserVars != t.Defaults && t.UserVars != t.Vars ==> t.UserVars.parent == old(nodeUserVars(role))
 
 //@ func (t *callRole) setParent(role Updatable)
 //@   property C14
@@ -262,8 +262,8 @@ package workflow
 //@   modifies t.parent, t.Defaults.parent, t.Vars.parent, t.UserVars.parent
 //@   ensures t.parent == role
 //@   ensures t.Defaults != nil && t.Defaults != t.Vars && t.Defaults != t.UserVars ==> t.Defaults.parent == old(nodeDefaults(role))
-//@   ensures t.Vars != nil && t.Vars != t.UserVars ==> t.Vars.parent == old(nodeVars(role))
-//@   ensures t.UserVars != nil ==> t.UserVars.parent == old(nodeUserVars(role))
+//@   ensures t.Vars != nil && t.Vars != t.Defaults && t.Vars != t.UserVars ==> t.Vars.parent == old(nodeVars(role))
+//@   ensures t.UserVars != nil && t.UserVars != t.Defaults && t.UserVars != t.Vars ==> t.UserVars.parent == old(nodeUserVars(role))
 
 // C14: the adapter between the environment and the root role stores the three getters it is given in the slots its
 // GetDefaults / GetVars / GetUserVars read from, and those return exactly what the stored getter returns.
